@@ -297,7 +297,7 @@ def run(chk):
             # the Cause text is outside every property (and masked here), so the model cannot tell the verdict
             chk.dist("smalllimit.cause_text_decides.not_compared")
             continue
-        if enginerun.oracle_order_ambiguous(m):
+        if enginerun.oracle_order_ambiguous(m, r.requests, True):
             # concurrent branches put the same question to the same worker at different instants: which of them gets the
             # worker's n-th answer is the arrival order, which the (branch by branch) reference semantics does not have
             chk.dist("oracle_order.not_compared")
@@ -322,10 +322,10 @@ def run(chk):
         # the log of the reference semantics
         timed_dist(chk, c, m)
         mode, hp, nev = enginerun.compare_history(c["machine"], m, r.history, len(r.requests), timed=True,
-                                                  request_instants=[q["t"] for q in r.requests])
+                                                  request_instants=[q["t"] for q in r.requests], requests=r.requests)
         chk.dist("history.%s" % mode)
         chk.dist("history.%s.events" % mode, nev)
-        nmode, np_ = enginerun.compare_notifications(m, [n["body"]["detail"] for n in r.notifications], c["input"], timed=True)
+        nmode, np_ = enginerun.compare_notifications(m, [n["body"]["detail"] for n in r.notifications], c["input"], timed=True, requests=r.requests)
         chk.dist("notifications.%s" % nmode)
         hp = hp + np_
         if hp:
